@@ -35,6 +35,7 @@ DOCS = [
     ('ml_short', '\\usepackage[english]{babel}\nOne \\foreignlanguage{german}{zwei} two '
                  '\\selectlanguage{german}Drei vier.\n', ['--multi-language']),
     ('indent', '  Lead\n\tTabbed wörd\n\n   Last\n', []),
+    ('ctrl', 'Page\x0c one\u2028two\x0b three\x85\n% \x1c \x1d \x1e\nFour five.\n', []),
 ]
 
 
@@ -208,6 +209,13 @@ def _judge_reports(env, tex, lang, parts, pi, o, l, fixed, matches, plain_tot, c
                 tx = len(tex[els:off + ln].encode())
             else:
                 fx, tx = col - 1, ecol
+            ctx = html.unescape(at['context'])
+            co, cl = int(at['contextoffset']), int(at['errorlength'])
+            marked = (ctx.encode()[co:co + cl].decode(errors='replace') if bytemode
+                      else ctx[co:co + cl])
+            if marked != word.replace('\n', ' '):
+                return 'C14 xml%s: context marks %r, flagged word is %r' % (
+                    '-b' if bytemode else '', marked, word)
             g = (int(at['fromy']), int(at['fromx']), int(at['toy']), int(at['tox']))
             if g != (lin - 1, fx, elin - 1, tx):
                 return 'C14 xml%s: %s reported from/to %r, expected %r (word %r)' % (
@@ -268,15 +276,65 @@ def setup(item):
     return env, tex, lang, parts, rids
 
 
+OWN_TEX = ('\\usepackage[english]{babel}\nOne z two.\n\\foreignlanguage{german}{eins w zwei drei vier funf}'
+           ' three q $a$ Four.\n\\selectlanguage{german}Fünf v sechs.\n')
+
+
+def own_check(T, twin=False):
+    """messages of the shell's own checks (--single-letters, --equation-punctuation) in
+    multi-language mode: each must be located at its letter / placeholder in the LaTeX file"""
+    env = shellenv.Env(['--multi-language', '--single-letters', 'x||', '--equation-punctuation',
+                        'inline', 'f.tex'])
+    env.cmdline.ml_rule_threshold = T
+    env.answer = lambda plain, language, n: []
+    env.proofreader.tex2txt.tex2txt = native_filter(env)
+    try:
+        tex, plain_tot, cm_tot, matches = env.proofreader.run_proofreader_options(
+            OWN_TEX, 'en-GB', 'WS', '', '', '', [])
+    finally:
+        env.proofreader.tex2txt.tex2txt = yal.tex2txt.tex2txt
+    out = io.StringIO()
+    env.genjson.output_json(OWN_TEX, plain_tot, cm_tot, copy.deepcopy(matches), env.vars.json_get,
+                            'f.tex', out)
+    got = sorted((m['offset'], m['rule']['id']) for m in json.loads(out.getvalue())['matches'])
+    exp = sorted([(OWN_TEX.index(' %s ' % c) + 1, 'PRIVATE::SINGLE_LETTER') for c in 'zwqv'])
+    if twin:
+        exp = exp[1:]
+    single = [g for g in got if g[1] == 'PRIVATE::SINGLE_LETTER']
+    if single != exp:
+        return 'C14 own single-letter messages at %r, the letters stand at %r' % (single, exp)
+    for off, rid in got:
+        fa = OWN_TEX.index('$a$')
+        if rid == 'PRIVATE::EQUATION_PUNCTUATION' and not (fa <= off < fa + 3):
+            return 'C14 own equation message located at %r' % OWN_TEX[off:off + 6]
+    offs = [m['offset'] for m in json.loads(out.getvalue())['matches']]
+    if offs != sorted(offs):
+        return 'C14 own messages not ordered by LaTeX position: %r' % offs
+    return None
+
+
 def items(tier, seed):
-    out = []
+    out = [{'h': 'own'}, {'h': 'own', 'twin': True}]
     for name, tex, argv in DOCS:
         out.append({'h': 'loc', 'doc': name, 'L': 8 if tier == 'quick' else 14, 'cost': 5})
     out.append({'h': 'loc', 'doc': 'two_lines', 'L': 3, 'twin': True})
     return out
 
 
+def build_own(item):
+    twin = bool(item.get('twin'))
+
+    def prop(T: int):
+        return own_check(T, twin) or True
+
+    def concrete(w):
+        return own_check(w['T'], twin)
+    return prop, concrete
+
+
 def build(item):
+    if item['h'] == 'own':
+        return build_own(item)
     env, tex, lang, parts, rids = setup(item)
     L = item['L']
     twin = bool(item.get('twin'))
